@@ -14,6 +14,12 @@
 (*                dropped before the write guard, a temporary of the same  *)
 (*                statement)                                               *)
 (*                                                                         *)
+(* The detach takes effect - the abstract attached sink becomes none - at  *)
+(* the release of the write lock: only then can anybody see the slot       *)
+(* empty, and by then the queue has drained, flushed and closed.           *)
+(* DropUnderLock = FALSE (release the lock, then drop the pair) lets other *)
+(* threads see "detached" while accepted entries are unwritten: it does    *)
+(* NOT refine (self-test).                                                 *)
 (* TLC checks that every interleaving refines GlobalDetach (property       *)
 (* layer).  AppendUnderLock = FALSE is the variant "clone the sink, drop   *)
 (* the read lock, then append": it does NOT refine (an entry pushed after  *)
@@ -25,7 +31,9 @@ EXTENDS Naturals, Sequences, FiniteSets, TLC
 CONSTANTS Appenders,        \* e.g. {1, 2}
           NApp,             \* try_appends per appender
           Ctls,             \* controllers = sinks: controller c attaches sink c once and drops its handle
-          AppendUnderLock   \* TRUE = the code; FALSE = append after releasing the read lock
+          AppendUnderLock,  \* TRUE = the code; FALSE = append after releasing the read lock
+          DropUnderLock     \* TRUE = the code (the taken pair is dropped before the write guard);
+                            \* FALSE = the write lock is released first, then the pair is dropped
 
 VARIABLES
     readers, writer,   \* the RwLock: set of appenders holding it shared / controller holding it exclusively (0 = none)
@@ -90,9 +98,10 @@ CCheckFail(c) == /\ cpc[c] = "check" /\ slot # 0
                  /\ cpc' = [cpc EXCEPT ![c] = "failunlock"]
                  /\ UNCHANGED <<readers, writer, slot, apc, an, ad, q, out, fl, stop, qclosed, acc, oks, errs, poisoned>>
 \* drop(write) -- "don't poison" -- then panic
-CUnlock(c) == /\ cpc[c] \in {"setunlock", "failunlock", "dunlock"} /\ writer = c
+CUnlock(c) == /\ cpc[c] \in {"setunlock", "failunlock", "dunlock", "eunlock"} /\ writer = c
               /\ writer' = 0
               /\ cpc' = [cpc EXCEPT ![c] = CASE cpc[c] = "setunlock" -> "attret" [] cpc[c] = "failunlock" -> "panic"
+                                              [] cpc[c] = "eunlock" -> "ejoin"
                                               [] OTHER -> "detret"]
               /\ UNCHANGED <<readers, slot, apc, an, ad, q, out, fl, stop, qclosed, acc, oks, errs, poisoned>>
 CPanic(c) == /\ C(c, "panic", "failed") /\ poisoned' = (poisoned \/ writer = c)
@@ -105,10 +114,11 @@ CDStart(c) == /\ C(c, "held", "dwlock")
               /\ UNCHANGED <<readers, writer, slot, apc, an, ad, q, out, fl, stop, qclosed, acc, oks, errs, poisoned>>
 \* SINK.write().take(): the pair leaves the slot; dropping it asks the queue to shut down
 CTake(c) == /\ cpc[c] = "take" /\ slot' = 0 /\ stop' = [stop EXCEPT ![c] = TRUE]
-            /\ cpc' = [cpc EXCEPT ![c] = "join"]
+            /\ cpc' = [cpc EXCEPT ![c] = IF DropUnderLock THEN "join" ELSE "eunlock"]
             /\ UNCHANGED <<readers, writer, apc, an, ad, q, out, fl, qclosed, acc, oks, errs, poisoned>>
 \* join() returns when the writer thread has closed the stream
-CJoin(c) == /\ cpc[c] = "join" /\ qclosed[c] /\ cpc' = [cpc EXCEPT ![c] = "dunlock"]
+CJoin(c) == /\ cpc[c] \in {"join", "ejoin"} /\ qclosed[c]
+            /\ cpc' = [cpc EXCEPT ![c] = IF cpc[c] = "join" THEN "dunlock" ELSE "detret"]
             /\ UNCHANGED <<readers, writer, slot, apc, an, ad, q, out, fl, stop, qclosed, acc, oks, errs, poisoned>>
 CDetRet(c) == /\ C(c, "detret", "done")
               /\ UNCHANGED <<readers, writer, slot, apc, an, ad, q, out, fl, stop, qclosed, acc, oks, errs, poisoned>>
@@ -140,17 +150,21 @@ AState(c) == CASE cpc[c] = "new" -> "new"
                [] cpc[c] = "held" -> "held"
                [] cpc[c] \in {"failunlock", "panic"} -> "faillin"
                [] cpc[c] = "failed" -> "failed"
-               [] cpc[c] \in {"dwlock", "take"} -> "detaching"
-               [] cpc[c] \in {"join", "dunlock", "detret"} -> "detlin"
+               [] cpc[c] \in {"dwlock", "take", "join", "dunlock", "eunlock"} -> "detaching"
+               [] cpc[c] \in {"ejoin", "detret"} -> "detlin"
                [] OTHER -> "detached"
 
+\* the sink somebody has taken out of the slot while still holding the write lock is, for every
+\* other thread, still attached
+Taking == {c \in Ctls : cpc[c] \in {"join", "dunlock", "eunlock"}}
 Abs == INSTANCE GlobalDetach WITH
-    aatt <- slot,
+    aatt <- IF Taking # {} THEN CHOOSE c \in Taking : TRUE ELSE slot,
     pendApp <- {<<p, Entry(p)>> : p \in {x \in Appenders : apc[x] \in {"rlock", "look"}}},
     linApp <- {<<p, Entry(p), ad[p]>> : p \in {x \in Appenders : apc[x] \in {"push", "unlock", "ret"}}},
     okd <- oks, errd <- errs, accepted <- acc, nexted <- out, nflushed <- fl,
     closedS <- {s \in Ctls : qclosed[s]},
-    astate <- [c \in Ctls |-> AState(c)]
+    astate <- [c \in Ctls |-> AState(c)],
+    obs <- <<>>
 
 AllE == {p * 10 + i : p \in Appenders, i \in 1..NApp}
 ANext ==
